@@ -1,6 +1,6 @@
 (* C20 - pinned statements (SetSketchParams dump / reload). *)
 From Coq Require Import List ZArith NArith Bool.
-From PMH Require Import Model.ParamsJson Gen.FlagsJson Proofs.ParamsJson.
+From PMH Require Import Model.ParamsJson Gen.FlagsJson Proofs.ParamsJson Proofs.JsonRoundTrip.
 Import ListNotations.
 Open Scope Z_scope.
 
@@ -29,9 +29,23 @@ Proof. exact reload_missing_file. Qed.
 Theorem C20_reload_never_panics : forall file, reload_json false file <> RPanic.
 Proof. exact reload_never_panics. Qed.
 
+(* round trip: the dumped document parses back to the dumped parameters - m and q exactly for every value below
+   2^64, b and a as the printed tokens (any token of the shape [-]digits[.digits][e[+|-]digits]) *)
+Theorem C20_roundtrip : forall tb m ta q, ftok_ok tb -> ftok_ok ta ->
+  (m <= 18446744073709551615)%N -> (q <= 18446744073709551615)%N ->
+  parse_params (print_params (ftok_bytes tb) m (ftok_bytes ta) q) = POk (ftok_bytes tb) m (ftok_bytes ta) q.
+Proof. exact roundtrip. Qed.
+
+(* every such token is lexed whole, whatever follows the delimiter *)
+Theorem C20_number_token_lexed_whole : forall t c r, ftok_ok t -> delim c ->
+  lex_number (ftok_bytes t ++ c :: r) = Some (ftok_bytes t, is_plain t, c :: r).
+Proof. exact lex_number_ftok. Qed.
+
 Print Assumptions C20_source_flag.
 Print Assumptions C20_parse_ok_contains_close.
 Print Assumptions C20_torn_file_rejected.
 Print Assumptions C20_reload_torn.
 Print Assumptions C20_reload_missing_file.
 Print Assumptions C20_reload_never_panics.
+Print Assumptions C20_roundtrip.
+Print Assumptions C20_number_token_lexed_whole.
